@@ -227,6 +227,7 @@ def run_paths(ctx, rng):
                                   expected="image in format " + fmt, observed=data[:32].hex())
         finally:
             impl.drop_scratch(d)
+    tape_name_stream(ctx, ctx.rng("c13-names"), 2000 if ctx.thorough else 400)
     # a tape name that does not fit 16 bytes is an error
     d = impl.scratch_dir()
     try:
@@ -238,6 +239,54 @@ def run_paths(ctx, rng):
             ctx.violation("a 17-byte tape name was accepted", {"source": "make_wav 'x.wav', '0123456789ABCDEFG'"}, expected="an error", observed="exit 0")
     finally:
         impl.drop_scratch(d)
+
+
+NAME_STEMS = ["GAME", "tape", "a.b", "x", "ИГРА", "My Prog", "Z9$", "0123456789AB", "wav", "w", "Тест.1"]
+NAME_TAILS = ["", "", ".wav", ".WAV", ".Wav", ".bin", ".", ".wav.wav", " .wav", ".wave", "wav", ".mac"]
+
+
+def tape_name_stream(ctx, rng, n):
+    """the name in the tape header: an explicit name is written exactly as given (whatever it ends in), an inferred
+    one is the file name of the output path without a final '.wav'; 17 bytes and more are refused"""
+    for _ in range(n):
+        directive = rng.choice(["make_wav", "make_turbo_wav"])
+        stem, tail = rng.choice(NAME_STEMS), rng.choice(NAME_TAILS)
+        explicit = rng.random() < 0.6
+        pdir = rng.choice(["", "", "o/", "./", "sub/dir/"])
+        if explicit:
+            name = (stem + tail) if rng.random() < 0.8 else (stem + tail + "0123456789")[:rng.randint(15, 20)]
+            path = pdir + rng.choice(["t.wav", "out.WAV", "x", "n.a.m.e.wav"])
+            src = "%s \"%s\", \"%s\"" % (directive, path, name)
+            want = name
+        else:
+            fname = stem + tail
+            if rng.random() < 0.2:
+                fname = (fname + "0123456789ABCDEFGH")[:rng.randint(14, 22)] + rng.choice(["", ".wav"])
+            path = pdir + fname
+            src = "%s \"%s\"" % (directive, path)
+            want = fname[:-4] if fname.lower().endswith(".wav") else fname
+        if not want or '"' in want:
+            continue
+        text = ".link 1000\nnop\n" + src + "\n"
+        r = impl.assemble([("/w/prog.mac", text)], charset="bk")
+        enc = want.encode("bk")
+        inp = {"source": text, "explicit": explicit}
+        ctx.case(("tape-name", src))
+        ctx.count("tape-names")
+        ctx.count("tape-names-explicit" if explicit else "tape-names-inferred")
+        ctx.count("tape-names ending in .wav", want.lower().endswith(".wav"))
+        if len(enc) > 16:
+            if r.outcome == "ok" or "too-long-string" not in r.error_ids():
+                ctx.violation("a tape name of more than 16 bytes was not refused", inp, expected="too-long-string", observed=r.summary())
+            continue
+        if r.outcome != "ok" or len(r.emitted) != 1:
+            ctx.violation("a tape directive with a name that fits was not accepted", inp, expected="one output", observed=r.summary())
+            continue
+        got = r.emitted[0][4]
+        fmt = r.emitted[0][2]
+        if got != enc.ljust(16, b" ") or fmt != ("bk_wav" if directive == "make_wav" else "bk_turbo_wav"):
+            ctx.violation("the name in the tape header is not the name the source states (explicit: as written; inferred: the output "
+                          "file name without '.wav')", inp, expected=enc.ljust(16, b" ").hex(), observed={"name": bytes(got).hex(), "format": fmt})
 
 
 def search(ctx, broken):
